@@ -37,10 +37,12 @@ def _node():
 
     class Quiet(Readable):
         """a module that is not exported at all"""
-    return nodelib.Srv([nodelib.mod('m', Dev), nodelib.mod('n', Readable), nodelib.mod('q', Quiet, export=False)])
+    from frappy.config import Param
+    return nodelib.Srv([nodelib.mod('m', Dev, ro=Param(export='renamed'), text=Param(export='_text')), nodelib.mod('n', Readable),
+                        nodelib.mod('q', Quiet, export=False)])
 
 
-NAMES = ['value', 'target', 'text', '_text', 'fixed', '_fixed', '_zero', '_blank', '_off', 'zero', 'hidden', '_hidden', 'ro', '_ro', 'twice', '_twice', 'secret', '_secret',
+NAMES = ['renamed', 'value', 'target', 'text', '_text', 'fixed', '_fixed', '_zero', '_blank', '_off', 'zero', 'hidden', '_hidden', 'ro', '_ro', 'twice', '_twice', 'secret', '_secret',
          'stop', 'status', 'pollinterval', 'nosuch', '', 'accessibles', 'name', 'True', '_value']
 MODS = ['m', 'n', 'q', 'x', '']
 
